@@ -247,11 +247,9 @@ Fixpoint do_segs (text : list chr) (attrs : rle) (ls : lstate) (segs : list seg)
   | s :: r => match do_seg text attrs ls s with Err x => Err x | Ok ls' => do_segs text attrs ls' r end
   end.
 
-(* trim_line(line_layout, text, 0, maxcol) is the identity when 0 <= sc <= maxcol for every
-   segment and maxcol > 0 (the loop never advances x for start = 0).  Other lines are
-   outside the modelled domain. *)
-Definition line_fits (maxcol : Z) (segs : list seg) : bool :=
-  (0 <? maxcol) && forallb (fun s => (0 <=? seg_sc s) && (seg_sc s <=? maxcol)) segs.
+(* trim_line(line_layout, text, 0, maxcol) is NOT modelled: [lines] below are the lines as
+   trim_line returns them (layout data; the column arithmetic of trimming belongs to the
+   text-layout property).  Everything after that call is modelled. *)
 
 (* the "for line_layout in ls" loop: the walker state is shared by all lines *)
 Fixpoint do_lines (text : list chr) (attrs : rle) (maxcol : Z) (aw : awstate) (lines : list (list seg))
@@ -259,7 +257,6 @@ Fixpoint do_lines (text : list chr) (attrs : rle) (maxcol : Z) (aw : awstate) (l
   match lines with
   | [] => Ok []
   | l :: r =>
-      if negb (line_fits maxcol l) then Err OtherError else
       match do_segs text attrs (LS [] 0 0 aw) l with
       | Err x => Err x
       | Ok ls => match do_lines text attrs maxcol (l_aw ls) r with
@@ -440,31 +437,36 @@ Definition sgr_simple (s : tstate) (p : Z) : tstate :=
   else s.
 
 (* the parameter list, left to right; 38/48 take "5;n" or "2;r;g;b" *)
-Fixpoint decode_from (fuel : nat) (s : tstate) (ps : list Z) : tstate :=
-  match fuel with
-  | O => s
-  | S k =>
-    match ps with
-    | [] => s
-    | p :: rest =>
-        if (p =? 38) || (p =? 48) then
-          match rest with
-          | 5 :: n :: rest' =>
-              let s' := if byte_ok n then (if p =? 38 then set_fg s (CIdx n) else set_bg s (CIdx n)) else s in
-              decode_from k s' rest'
-          | 2 :: r :: g :: b :: rest' =>
-              let s' := if byte_ok r && byte_ok g && byte_ok b
-                        then (if p =? 38 then set_fg s (CRgb r g b) else set_bg s (CRgb r g b)) else s in
-              decode_from k s' rest'
-          | _ => s                                   (* malformed: the rest is dropped *)
-          end
-        else decode_from k (sgr_simple s p) rest
-    end
+Fixpoint decode_from (s : tstate) (ps : list Z) {struct ps} : tstate :=
+  match ps with
+  | [] => s
+  | p :: rest =>
+      if (p =? 38) || (p =? 48) then
+        match rest with
+        | sel :: rest1 =>
+            if sel =? 5 then
+              match rest1 with
+              | n :: rest' =>
+                  let s' := if byte_ok n then (if p =? 38 then set_fg s (CIdx n) else set_bg s (CIdx n)) else s in
+                  decode_from s' rest'
+              | [] => s
+              end
+            else if sel =? 2 then
+              match rest1 with
+              | r :: g :: b :: rest' =>
+                  let s' := if byte_ok r && byte_ok g && byte_ok b
+                            then (if p =? 38 then set_fg s (CRgb r g b) else set_bg s (CRgb r g b)) else s in
+                  decode_from s' rest'
+              | _ => s
+              end
+            else s                                   (* malformed: the rest is dropped *)
+        | [] => s
+        end
+      else decode_from (sgr_simple s p) rest
   end.
 
-(* ESC [ ps m from the current state *)
-Definition decode_sgr_from (s : tstate) (ps : list Z) : tstate := decode_from (S (length ps)) s ps.
-Definition decode_sgr (ps : list Z) : tstate := decode_sgr_from t_reset ps.
+(* ESC [ ps m from a reset pen *)
+Definition decode_sgr (ps : list Z) : tstate := decode_from t_reset ps.
 
 (* --- palette (common.py BaseScreen + _raw_display_base.py Screen) --- *)
 Record pentry := PE { p_basic : aspec; p_mono : aspec; p_88 : aspec; p_256 : aspec; p_true : aspec }.
@@ -684,6 +686,33 @@ Definition run_layout (l : list Z) : list Z :=
   | _ => [-2]
   end.
 
+(* Text(markup).render((maxcol,)): maxcol nchars (enc wid)* markup nlines (nsegs seg* )* *)
+Definition run_text (l : list Z) : list Z :=
+  match l with
+  | maxcol :: nc :: r =>
+      match dec_chars (Z.to_nat nc) r with
+      | Some (text, r) =>
+          match dec_markup (S (length r)) r with
+          | Some (m, nl :: r) =>
+              match decompose_tagmarkup m with
+              | Err e => err_reply e
+              | Ok (_, _, al) =>
+                  match dec_lines (Z.to_nat nl) r with
+                  | Some (lines, _) =>
+                      match apply_text_layout text al lines maxcol with
+                      | Ok rows => 0 :: zlen rows :: flat_map enc_rle rows
+                      | Err e => err_reply e
+                      end
+                  | None => [-2]
+                  end
+              end
+          | _ => [-2]
+          end
+      | None => [-2]
+      end
+  | _ => [-2]
+  end.
+
 (* a dict literal: n (k v)*, later duplicates override as in Python *)
 Fixpoint dec_pairs (n : nat) (l : list Z) : option (amap * list Z) :=
   match n with
@@ -875,5 +904,6 @@ Definition run_case (l : list Z) : list Z :=
   | 4 :: r => run_escape r
   | 5 :: r => run_palette r
   | 6 :: r => run_decode r
+  | 7 :: r => run_text r
   | _ => [-3]
   end.
